@@ -851,6 +851,18 @@ impl Check for C15 {
         for _ in 0..nvar {
             variants.push(transform(&mut r, &p));
         }
+        // the declarations nobody refers to are never forced by the lazy evaluator: a program
+        // in which they are simply not issued must give the same verdicts (and no error either)
+        {
+            let mut q = p.clone();
+            q.lets.retain(|l| !l.name.starts_with("unused"));
+            for rule in q.rules.iter_mut() {
+                rule.body.lets.retain(|l| !l.name.starts_with("unused"));
+            }
+            if q != p {
+                variants.push(Variant { text: q.print(), dups: vec![], what: "unused declarations not issued".into(), disjuncts_permuted: false });
+            }
+        }
         let mut rels = Vec::new();
         for (i, v) in variants.iter().enumerate() {
             let rel = format!("rules/v{}.guard", i + 1);
